@@ -1,6 +1,7 @@
 package main
 
 import (
+	"errors"
 	"fmt"
 	"reflect"
 
@@ -24,23 +25,46 @@ func describeErr(err error) errInfo {
 		return errInfo{Nil: true}
 	}
 	var e errInfo
-	if v, ok := err.(saml2.ErrVerification); ok {
-		e.Wrapped = true
-		err = v.Cause
-		if err == nil {
-			return errInfo{Type: "ErrVerification(nil)", Wrapped: true}
+	// the typed error may be handed out bare, inside ErrVerification (by value or by pointer) or
+	// wrapped with %w; walk the chain and take the first typed validation error found
+	for depth := 0; err != nil && depth < 8; depth++ {
+		var next error
+		switch v := err.(type) {
+		case saml2.ErrVerification:
+			e.Wrapped, next = true, v.Cause
+			if next == nil {
+				return errInfo{Type: "ErrVerification(nil)", Wrapped: true}
+			}
+		case *saml2.ErrVerification:
+			e.Wrapped, next = true, v.Cause
+			if next == nil {
+				return errInfo{Type: "ErrVerification(nil)", Wrapped: true}
+			}
+		case saml2.ErrInvalidValue:
+			e.Type, e.Key, e.Reason = "ErrInvalidValue", v.Key, v.Reason
+		case *saml2.ErrInvalidValue:
+			e.Type, e.Key, e.Reason = "ErrInvalidValue", v.Key, v.Reason
+		case saml2.ErrMissingElement:
+			e.Type, e.Key, e.Attr = "ErrMissingElement", v.Tag, v.Attribute
+		case *saml2.ErrMissingElement:
+			e.Type, e.Key, e.Attr = "ErrMissingElement", v.Tag, v.Attribute
+		case saml2.ErrParsing:
+			e.Type, e.Key = "ErrParsing", v.Tag
+		case *saml2.ErrParsing:
+			e.Type, e.Key = "ErrParsing", v.Tag
+		default:
+			next = errors.Unwrap(err)
+			if next == nil {
+				e.Type = reflect.TypeOf(err).String()
+			}
 		}
-	}
-	e.Text = err.Error()
-	switch v := err.(type) {
-	case saml2.ErrInvalidValue:
-		e.Type, e.Key, e.Reason = "ErrInvalidValue", v.Key, v.Reason
-	case saml2.ErrMissingElement:
-		e.Type, e.Key, e.Attr = "ErrMissingElement", v.Tag, v.Attribute
-	case saml2.ErrParsing:
-		e.Type, e.Key = "ErrParsing", v.Tag
-	default:
-		e.Type = reflect.TypeOf(err).String()
+		if e.Text == "" || next == nil {
+			e.Text = err.Error()
+		}
+		if e.Type != "" {
+			break
+		}
+		err = next
 	}
 	return e
 }
